@@ -123,7 +123,7 @@ class Run:
         return EXIT_OK
 
     def write_replay(self, o):
-        d = os.path.join(ROOT, "replays")
+        d = os.environ.get("VERIF_REPLAY_DIR") or os.path.join(ROOT, "replays")
         os.makedirs(d, exist_ok=True)
         safe = re.sub(r"[^A-Za-z0-9_.#-]+", "_", o.name)[:120]
         path = os.path.join(d, f"{self.pid}-{safe}.json")
@@ -147,7 +147,7 @@ class Run:
         return path
 
     def write_bounded_replay(self, bp, v):
-        d = os.path.join(ROOT, "replays")
+        d = os.environ.get("VERIF_REPLAY_DIR") or os.path.join(ROOT, "replays")
         os.makedirs(d, exist_ok=True)
         safe = re.sub(r"[^A-Za-z0-9_.#-]+", "_", v.get("name", "bounded"))[:120]
         path = os.path.join(d, f"{self.pid}-bounded-{safe}.json")
@@ -204,8 +204,9 @@ class Run:
             "wall_s": round(time.time() - self.t0, 2),
             "violations": len(violations),
         }
-        os.makedirs(os.path.join(ROOT, "evidence"), exist_ok=True)
-        with open(os.path.join(ROOT, "evidence", f"{self.pid}.json"), "w") as f:
+        evd = os.environ.get("VERIF_EVIDENCE_DIR") or os.path.join(ROOT, "evidence")
+        os.makedirs(evd, exist_ok=True)
+        with open(os.path.join(evd, f"{self.pid}.json"), "w") as f:
             json.dump(ev, f, indent=1, default=str)
 
 
